@@ -317,12 +317,16 @@ def _sr(inp):
 
 def _codes_out(arr):
     """float samples -> PCM codes (ints) when exact, else the exact rational of sample*32768"""
+    import numpy as np
+    x = np.asarray(arr, dtype=float) * 32768.0
+    if x.ndim == 2 and np.all(np.isfinite(x)) and np.array_equal(np.rint(x), x):
+        return x.astype(np.int64).tolist()
     out = []
     for row in arr:
         r = []
         for v in row:
-            x = float(v) * 32768.0
-            r.append(int(x) if x.is_integer() else rat(x))
+            y = float(v) * 32768.0
+            r.append(int(y) if y.is_integer() else rat(y))
         out.append(r)
     return out
 
